@@ -82,6 +82,8 @@ func NewWriter(opts ...WriterOption) *Writer {
 // NewWriterFromPool 从池中获取一个写入器
 func NewWriterFromPool(opts ...WriterOption) *Writer {
 	w := writerPool.Get().(*Writer)
+	// 池中对象可能曾被指定过其他字节序：未指定时必须恢复默认的大端序，而不是沿用上一个使用者的设置
+	w.order = binary.BigEndian
 	if len(opts) > 0 {
 		opt := opts[0]
 		if opt.ByteOrder != nil {
